@@ -464,4 +464,202 @@ theorem genLinks_key_functional (d : Dragonfly) (hGB : d.G ≤ d.C * d.B) (e1 e2
       rw [hk, hk'] at hs; cases hs
     · exact blue_functional d hGB _ x x' u u' hx hx' e1 e2 ha ha' hr
 
+/-! ### G1 + G3: both halves of the link of a slot with a peer are in the list -/
+
+theorem green_pair (d : Dragonfly) (r : Nat) (hr : r < d.nRouters) (k : Nat) (hk : k < d.B) (hne : k ≠ r % d.B) :
+    ∃ l, (⟨r, .green k, l⟩ : DAssign) ∈ d.genLinks.2 ∧
+      (⟨r / d.B * d.B + k, .green (r % d.B), l.flip⟩ : DAssign) ∈ d.genLinks.2 := by
+  obtain ⟨_, _, _, _, hb, hi, _, e, _, _⟩ := router_decomp d r hr
+  rcases Nat.lt_or_gt_of_ne hne with h | h
+  · obtain ⟨u, hu⟩ := tag_total (greenIdx d) (localPhase d).1 (r / d.B, k, r % d.B)
+      ((mem_greenIdx d _ _ _).2 ⟨hi, h, hb⟩)
+    refine ⟨.green (r / d.B % d.C) k (r % d.B) u false, mem_of_green d _ _ u hu ?_, mem_of_green d _ _ u hu ?_⟩
+    · simp only [emitG, e, List.mem_cons, true_or]
+    · simp only [emitG, DLink.flip, Bool.not_false, List.mem_cons, or_true, true_or]
+  · obtain ⟨u, hu⟩ := tag_total (greenIdx d) (localPhase d).1 (r / d.B, r % d.B, k)
+      ((mem_greenIdx d _ _ _).2 ⟨hi, h, hk⟩)
+    refine ⟨.green (r / d.B % d.C) (r % d.B) k u true, mem_of_green d _ _ u hu ?_, mem_of_green d _ _ u hu ?_⟩
+    · simp only [emitG, e, List.mem_cons, or_true, true_or]
+    · simp only [emitG, DLink.flip, Bool.not_true, List.mem_cons, true_or]
+
+theorem black_pair (d : Dragonfly) (r : Nat) (hr : r < d.nRouters) (k : Nat) (hk : k < d.C)
+    (hne : k ≠ (r / d.B) % d.C) :
+    ∃ l, (⟨r, .black k, l⟩ : DAssign) ∈ d.genLinks.2 ∧
+      (⟨r / (d.C * d.B) * (d.C * d.B) + k * d.B + r % d.B, .black ((r / d.B) % d.C), l.flip⟩ : DAssign) ∈ d.genLinks.2 := by
+  obtain ⟨_, _, hg, hc, hb, _, _, _, _, e⟩ := router_decomp d r hr
+  rcases Nat.lt_or_gt_of_ne hne with h | h
+  · obtain ⟨u, hu⟩ := tag_total (blackIdx d) (stG d).1 (r / (d.C * d.B), k, (r / d.B) % d.C, r % d.B)
+      ((mem_blackIdx d _ _ _ _).2 ⟨hg, h, hc, hb⟩)
+    refine ⟨.black (r / (d.C * d.B)) k ((r / d.B) % d.C) (r % d.B) u false,
+      mem_of_black d _ _ u hu ?_, mem_of_black d _ _ u hu ?_⟩
+    · simp only [emitK, mulBC, e, List.mem_cons, true_or]
+    · simp only [emitK, mulBC, DLink.flip, Bool.not_false, List.mem_cons, or_true, true_or]
+  · obtain ⟨u, hu⟩ := tag_total (blackIdx d) (stG d).1 (r / (d.C * d.B), (r / d.B) % d.C, k, r % d.B)
+      ((mem_blackIdx d _ _ _ _).2 ⟨hg, h, hk, hb⟩)
+    refine ⟨.black (r / (d.C * d.B)) ((r / d.B) % d.C) k (r % d.B) u true,
+      mem_of_black d _ _ u hu ?_, mem_of_black d _ _ u hu ?_⟩
+    · simp only [emitK, mulBC, e, List.mem_cons, or_true, true_or]
+    · simp only [emitK, mulBC, DLink.flip, Bool.not_true, List.mem_cons, true_or]
+
+theorem blue_pair (d : Dragonfly) (r : Nat) (hr : r < d.nRouters) (ho : r % (d.C * d.B) < d.G)
+    (hne : r % (d.C * d.B) ≠ r / (d.C * d.B)) :
+    ∃ l, (⟨r, .blue, l⟩ : DAssign) ∈ d.genLinks.2 ∧
+      (⟨r % (d.C * d.B) * (d.C * d.B) + r / (d.C * d.B), .blue, l.flip⟩ : DAssign) ∈ d.genLinks.2 := by
+  obtain ⟨_, _, hg, _, _, _, _, _, e, _⟩ := router_decomp d r hr
+  rcases Nat.lt_or_gt_of_ne hne with h | h
+  · obtain ⟨u, hu⟩ := tag_total (blueIdx d) (stK d).1 (r % (d.C * d.B), r / (d.C * d.B))
+      ((mem_blueIdx d _ _).2 ⟨h, hg⟩)
+    refine ⟨.blue (r % (d.C * d.B)) (r / (d.C * d.B)) (r % (d.C * d.B) * (d.C * d.B) + r / (d.C * d.B)) r u false,
+      mem_of_blue d _ _ u hu ?_, mem_of_blue d _ _ u hu ?_⟩
+    · simp only [emitB, mulBC, e, List.mem_cons, true_or]
+    · simp only [emitB, mulBC, e, DLink.flip, Bool.not_false, List.mem_cons, or_true, true_or]
+  · obtain ⟨u, hu⟩ := tag_total (blueIdx d) (stK d).1 (r / (d.C * d.B), r % (d.C * d.B))
+      ((mem_blueIdx d _ _).2 ⟨h, ho⟩)
+    refine ⟨.blue (r / (d.C * d.B)) (r % (d.C * d.B)) r (r % (d.C * d.B) * (d.C * d.B) + r / (d.C * d.B)) u true,
+      mem_of_blue d _ _ u hu ?_, mem_of_blue d _ _ u hu ?_⟩
+    · simp only [emitB, mulBC, e, List.mem_cons, or_true, true_or]
+    · simp only [emitB, mulBC, e, DLink.flip, Bool.not_true, List.mem_cons, true_or]
+
+/-- **G1 + G3**: for every router and slot with a peer, the list holds an entry for the slot and the entry with the flipped
+link for the back slot of the peer (no hypothesis on the shape) -/
+theorem genLinks_pair (d : Dragonfly) (r : Nat) (hr : r < d.nRouters) (s : DSlot) (q : Nat) (hq : d.peer r s = some q) :
+    ∃ l, (⟨r, s, l⟩ : DAssign) ∈ d.genLinks.2 ∧ (⟨q, d.backSlot r s, l.flip⟩ : DAssign) ∈ d.genLinks.2 := by
+  cases s with
+  | node i => simp [Dragonfly.peer] at hq
+  | green k =>
+    simp only [Dragonfly.peer] at hq
+    split at hq
+    · rename_i h
+      cases hq
+      exact green_pair d r hr k h.1 h.2
+    · cases hq
+  | black k =>
+    simp only [Dragonfly.peer] at hq
+    split at hq
+    · rename_i h
+      cases hq
+      exact black_pair d r hr k h.1 h.2
+    · cases hq
+  | blue =>
+    simp only [Dragonfly.peer] at hq
+    split at hq
+    · rename_i h
+      cases hq
+      exact blue_pair d r hr h.1 h.2
+    · cases hq
+
+/-! ### bounds -/
+
+theorem peer_lt (d : Dragonfly) (hGB : d.G ≤ d.C * d.B) (r : Nat) (hr : r < d.nRouters) (s : DSlot) (q : Nat)
+    (hq : d.peer r s = some q) : q < d.nRouters ∧ d.slotInBounds s = true ∧ d.slotInBounds (d.backSlot r s) = true := by
+  obtain ⟨hB, hC, hg, hc, hb, hi, ho, _, _, _⟩ := router_decomp d r hr
+  have hn : d.nRouters = d.G * (d.C * d.B) := by unfold Dragonfly.nRouters; rw [Nat.mul_assoc]
+  cases s with
+  | node i => simp [Dragonfly.peer] at hq
+  | green k =>
+    simp only [Dragonfly.peer] at hq
+    split at hq
+    · rename_i h
+      cases hq
+      refine ⟨?_, by simp [Dragonfly.slotInBounds, h.1], by simp [Dragonfly.slotInBounds, Dragonfly.backSlot, hb]⟩
+      have h1 : (r / d.B + 1) * d.B ≤ d.G * d.C * d.B := Nat.mul_le_mul_right _ hi
+      rw [Nat.add_mul, Nat.one_mul] at h1
+      unfold Dragonfly.nRouters
+      omega
+    · cases hq
+  | black k =>
+    simp only [Dragonfly.peer] at hq
+    split at hq
+    · rename_i h
+      cases hq
+      refine ⟨?_, by simp [Dragonfly.slotInBounds, h.1], by simp [Dragonfly.slotInBounds, Dragonfly.backSlot, hc]⟩
+      exact ridx_lt d ⟨r / (d.C * d.B), k, r % d.B⟩ ⟨hg, h.1, hb⟩
+    · cases hq
+  | blue =>
+    simp only [Dragonfly.peer] at hq
+    split at hq
+    · rename_i h
+      cases hq
+      refine ⟨?_, rfl, rfl⟩
+      have h1 : (r % (d.C * d.B) + 1) * (d.C * d.B) ≤ d.G * (d.C * d.B) := Nat.mul_le_mul_right _ h.1
+      rw [Nat.add_mul, Nat.one_mul] at h1
+      rw [hn]
+      omega
+    · cases hq
+
+/-! ### the theorem -/
+
+theorem find_key (as : List DAssign) (r : Nat) (s : DSlot) (l : DLink) (hmem : (⟨r, s, l⟩ : DAssign) ∈ as)
+    (hfun : ∀ e ∈ as, e.router = r → e.slot = s → e.link = l) :
+    (as.find? (fun a => a.router == r && a.slot == s)).map (·.link) = some l := by
+  cases h : as.find? (fun a => a.router == r && a.slot == s) with
+  | none =>
+    rw [List.find?_eq_none] at h
+    exact absurd (by simp) (h _ hmem)
+  | some e =>
+    have h1 := List.find?_some h
+    have h2 := List.mem_of_find?_eq_some h
+    simp only [Bool.and_eq_true, beq_iff_eq] at h1
+    simp only [Option.map_some, hfun e h2 h1.1 h1.2]
+
+theorem peer_slot_ne_node (d : Dragonfly) (r : Nat) (s : DSlot) (q : Nat) (hq : d.peer r s = some q) :
+    (∀ i, s ≠ .node i) ∧ (∀ i, d.backSlot r s ≠ .node i) := by
+  cases s with
+  | node i => simp [Dragonfly.peer] at hq
+  | green k => exact ⟨fun i h => (by cases h), fun i h => (by cases h)⟩
+  | black k => exact ⟨fun i h => (by cases h), fun i h => (by cases h)⟩
+  | blue => exact ⟨fun i h => (by cases h), fun i h => (by cases h)⟩
+
+/-- **the wiring of `generate_links`, for all shapes** with `G ≤ C*B` (a blue link of group `i` is held by router number
+`j < G` of the group: it has to be a router of that group): the slot of router `r` and the back slot of its peer hold
+the two halves of one link. -/
+theorem genLinks_wiring_CB (d : Dragonfly) (hGB : d.G ≤ d.C * d.B) (r : Nat) (hr : r < d.nRouters) (s : DSlot) (q : Nat)
+    (hq : d.peer r s = some q) :
+    ∃ l, d.linkAt d.genLinks.2 r s = some l ∧ d.linkAt d.genLinks.2 q (d.backSlot r s) = some l.flip := by
+  obtain ⟨l, m1, m2⟩ := genLinks_pair d r hr s q hq
+  obtain ⟨hqlt, b1, b2⟩ := peer_lt d hGB r hr s q hq
+  obtain ⟨n1, n2⟩ := peer_slot_ne_node d r s q hq
+  refine ⟨l, ?_, ?_⟩
+  · unfold Dragonfly.linkAt
+    rw [if_pos ⟨hr, b1⟩]
+    apply find_key _ _ _ _ m1
+    intro e he h1 h2
+    exact (genLinks_key_functional d hGB _ e m1 he h1.symm h2.symm n1).symm
+  · unfold Dragonfly.linkAt
+    rw [if_pos ⟨hqlt, b2⟩]
+    apply find_key _ _ _ _ m2
+    intro e he h1 h2
+    exact (genLinks_key_functional d hGB _ e m2 he h1.symm h2.symm n2).symm
+
+/-- `wiringOk_spec` without its hypothesis `d.wiringOk = true` -/
+theorem genLinks_wiring (d : Dragonfly) (hGB : d.G ≤ d.B) (r : Nat) (hr : r < d.nRouters) (s : DSlot) (q : Nat)
+    (hq : d.peer r s = some q) :
+    ∃ l, d.linkAt d.genLinks.2 r s = some l ∧ d.linkAt d.genLinks.2 q (d.backSlot r s) = some l.flip := by
+  have hC := (router_decomp d r hr).2.1
+  have : d.B ≤ d.C * d.B := Nat.le_mul_of_pos_left _ hC
+  exact genLinks_wiring_CB d (by omega) r hr s q hq
+
+/-- the executable check `wiringOk` holds for every shape with `G ≤ C*B` -/
+theorem wiringOk_of_le (d : Dragonfly) (hGB : d.G ≤ d.C * d.B) : d.wiringOk = true := by
+  unfold Dragonfly.wiringOk
+  simp only [List.all_eq_true, List.mem_range]
+  intro r hr s _
+  cases hq : d.peer r s with
+  | none => rfl
+  | some q =>
+    obtain ⟨l, e1, e2⟩ := genLinks_wiring_CB d hGB r hr s q hq
+    simp only [e1, e2, beq_self_eq_true]
+
+/-- non-vacuity: a 2x2x2 dragonfly, router 2 = (1,0,0), its green link to blade 1 (router 3) -/
+example : ∃ l, (⟨2, 2, 2, 1, false, false, true, 0⟩ : Dragonfly).linkAt (⟨2, 2, 2, 1, false, false, true, 0⟩ : Dragonfly).genLinks.2 2 (.green 1) = some l ∧
+    (⟨2, 2, 2, 1, false, false, true, 0⟩ : Dragonfly).linkAt (⟨2, 2, 2, 1, false, false, true, 0⟩ : Dragonfly).genLinks.2 3
+      ((⟨2, 2, 2, 1, false, false, true, 0⟩ : Dragonfly).backSlot 2 (.green 1)) = some l.flip :=
+  genLinks_wiring ⟨2, 2, 2, 1, false, false, true, 0⟩ (by decide) 2 (by decide) (.green 1) 3 (by decide)
+
+/-- non-vacuity: the blue link of router 1 = (0,0,1) to router 4 = (1,0,0); here `G = 2 ≤ C*B = 4` -/
+example := genLinks_wiring_CB ⟨2, 2, 2, 1, false, false, false, 7⟩ (by decide) 1 (by decide) .blue 4 (by decide)
+
+/-- non-vacuity: a black link -/
+example := genLinks_wiring ⟨2, 3, 2, 2, true, true, true, 0⟩ (by decide) 5 (by decide) (.black 0) 1 (by decide)
+
 end SgVerif.C26
